@@ -1,0 +1,138 @@
+//go:build verif
+
+// Machine-checked contracts for package assign (read by /verif/govc; comments only).
+// Syntax: /verif/DESIGN.md section 2.2. Integers are 64-bit vectors with Go's wrap-around.
+//
+// Every operator:  requires only that both operands are well-formed values (valid = one of the
+// twelve implementers of value.Value, non-nil pointer; aliasing left == right is allowed),
+// safe (C08: no reachable panic for any operand values), assigns left.all (C13: nothing but the
+// left operand is written), and per-cell postconditions taken from the property text (C07).
+
+package assign
+
+//@ pred II(l value.Value, r value.Value) = is(l, *value.Integer) && is(r, *value.Integer)
+//@ pred FF(l value.Value, r value.Value) = is(l, *value.Float) && is(r, *value.Float)
+//@ pred RR(l value.Value, r value.Value) = is(l, *value.RTime) && is(r, *value.RTime)
+//@ pred BB(l value.Value, r value.Value) = is(l, *value.Boolean) && is(r, *value.Boolean)
+//@ pred IV(v value.Value) = v.(*value.Integer).Value
+//@ pred FV(v value.Value) = v.(*value.Float).Value
+//@ pred RV(v value.Value) = v.(*value.RTime).Value
+//@ pred BV(v value.Value) = v.(*value.Boolean).Value
+//@ pred noInfI(v value.Value) = !v.(*value.Integer).IsPositiveInf && !v.(*value.Integer).IsNegativeInf
+//@ pred noInfF(v value.Value) = !v.(*value.Float).IsPositiveInf && !v.(*value.Float).IsNegativeInf
+
+//@ func Addition [C07 C08 C13]
+//@   requires valid(left) && valid(right)
+//@   safe [C08]
+//@   assigns [C13] left.all
+//@   ensures [int-int C07] II(left,right) && old(noInfI(right)) && noOvfAdd(old(IV(left)), old(IV(right))) ==> err == nil && IV(left) == old(IV(left)) + old(IV(right))
+//@   ensures [float-float C07] FF(left,right) && old(noInfF(right)) && !isInf(fadd(old(FV(left)), old(FV(right)))) ==> err == nil && same(FV(left), fadd(old(FV(left)), old(FV(right))))
+//@   ensures [rtime-rtime C07] RR(left,right) ==> err == nil && RV(left) == old(RV(left)) + old(RV(right))
+//@   ensures [type-error C07] is(left, *value.Boolean) || is(left, *value.Backend) || is(left, *value.Acl) || is(left, *value.IP) ==> err != nil
+
+//@ func Subtraction [C07 C08 C13]
+//@   requires valid(left) && valid(right)
+//@   safe [C08]
+//@   assigns [C13] left.all
+//@   ensures [int-int C07] II(left,right) && old(noInfI(right)) && noOvfSub(old(IV(left)), old(IV(right))) ==> err == nil && IV(left) == old(IV(left)) - old(IV(right))
+//@   ensures [float-float C07] FF(left,right) && old(noInfF(right)) && !isInf(fsub(old(FV(left)), old(FV(right)))) ==> err == nil && same(FV(left), fsub(old(FV(left)), old(FV(right))))
+//@   ensures [rtime-rtime C07] RR(left,right) ==> err == nil && RV(left) == old(RV(left)) - old(RV(right))
+//@   ensures [type-error C07] is(left, *value.Boolean) || is(left, *value.Backend) || is(left, *value.Acl) || is(left, *value.IP) ==> err != nil
+
+//@ func Multiplication [C07 C08 C13]
+//@   requires valid(left) && valid(right)
+//@   safe [C08]
+//@   assigns [C13] left.all
+//@   ensures [int-int C07] II(left,right) && old(noInfI(right)) && noOvfMul(old(IV(left)), old(IV(right))) ==> err == nil && IV(left) == old(IV(left)) * old(IV(right))
+//@   ensures [float-float C07] FF(left,right) && old(noInfF(right)) && !isInf(fmul(old(FV(left)), old(FV(right)))) ==> err == nil && same(FV(left), fmul(old(FV(left)), old(FV(right))))
+//@   ensures [type-error C07] is(left, *value.Boolean) || is(left, *value.Backend) || is(left, *value.Acl) || is(left, *value.IP) ==> err != nil
+
+//@ func Division [C07 C08 C13]
+//@   requires valid(left) && valid(right)
+//@   safe [C08]
+//@   assigns [C13] left.all
+//@   ensures [int-int C07] II(left,right) && old(noInfI(right)) && old(IV(right)) != 0 ==> err == nil && IV(left) == old(IV(left)) / old(IV(right))
+//@   ensures [int-zero C07] II(left,right) && old(IV(right)) == 0 ==> err != nil
+//@   ensures [float-float C07] FF(left,right) && old(noInfF(right)) && !same(old(FV(right)), 0.0) && !isZero(old(FV(right))) && !isInf(fdiv(old(FV(left)), old(FV(right)))) ==> err == nil && same(FV(left), fdiv(old(FV(left)), old(FV(right))))
+//@   ensures [float-zero C07] FF(left,right) && isZero(old(FV(right))) ==> err != nil
+
+//@ func Remainder [C07 C08 C13]
+//@   requires valid(left) && valid(right)
+//@   safe [C08]
+//@   assigns [C13] left.all
+//@   ensures [int-int C07] II(left,right) && old(noInfI(left)) && old(noInfI(right)) && old(IV(right)) != 0 ==> err == nil && IV(left) == old(IV(left)) % old(IV(right))
+
+//@ func BitwiseOR [C07 C08 C13]
+//@   requires valid(left) && valid(right)
+//@   safe [C08]
+//@   assigns [C13] left.all
+//@   ensures [int-int C07] II(left,right) ==> err == nil && IV(left) == old(IV(left)) | old(IV(right))
+//@   ensures [type-error C07] !II(left,right) ==> err != nil
+
+//@ func BitwiseAND [C07 C08 C13]
+//@   requires valid(left) && valid(right)
+//@   safe [C08]
+//@   assigns [C13] left.all
+//@   ensures [int-int C07] II(left,right) ==> err == nil && IV(left) == old(IV(left)) & old(IV(right))
+//@   ensures [type-error C07] !II(left,right) ==> err != nil
+
+//@ func BitwiseXOR [C07 C08 C13]
+//@   requires valid(left) && valid(right)
+//@   safe [C08]
+//@   assigns [C13] left.all
+//@   ensures [int-int C07] II(left,right) ==> err == nil && IV(left) == old(IV(left)) ^ old(IV(right))
+//@   ensures [type-error C07] !II(left,right) ==> err != nil
+
+//@ func LeftShift [C07 C08 C13]
+//@   requires valid(left) && valid(right)
+//@   safe [C08]
+//@   assigns [C13] left.all
+//@   ensures [int-int C07] II(left,right) && 0 <= old(IV(right)) && old(IV(right)) < 64 ==> err == nil && IV(left) == old(IV(left)) << old(IV(right))
+//@   ensures [type-error C07] !II(left,right) ==> err != nil
+
+//@ func RightShift [C07 C08 C13]
+//@   requires valid(left) && valid(right)
+//@   safe [C08]
+//@   assigns [C13] left.all
+//@   ensures [int-int C07] II(left,right) && 0 <= old(IV(right)) && old(IV(right)) < 64 ==> err == nil && IV(left) == old(IV(left)) >> old(IV(right))
+//@   ensures [type-error C07] !II(left,right) ==> err != nil
+
+//@ func LeftRotate [C07 C08 C13]
+//@   requires valid(left) && valid(right)
+//@   safe [C08]
+//@   assigns [C13] left.all
+//@   ensures [rotation C07] II(left,right) && err == nil ==> IV(left) == rotl64(old(IV(left)), old(IV(right)))
+//@   ensures [in-range C07] II(left,right) && 0 <= old(IV(right)) && old(IV(right)) <= 64 ==> err == nil
+//@   ensures [type-error C07] !II(left,right) ==> err != nil
+
+//@ func RightRotate [C07 C08 C13]
+//@   requires valid(left) && valid(right)
+//@   safe [C08]
+//@   assigns [C13] left.all
+//@   ensures [rotation C07] II(left,right) && err == nil ==> IV(left) == rotr64(old(IV(left)), old(IV(right)))
+//@   ensures [in-range C07] II(left,right) && 0 <= old(IV(right)) && old(IV(right)) <= 64 ==> err == nil
+//@   ensures [type-error C07] !II(left,right) ==> err != nil
+
+//@ func LogicalOR [C07 C08 C13]
+//@   requires valid(left) && valid(right)
+//@   safe [C08]
+//@   assigns [C13] left.all
+//@   ensures [bool-bool C07] BB(left,right) ==> err == nil && BV(left) == (old(BV(left)) || old(BV(right)))
+//@   ensures [type-error C07] !BB(left,right) ==> err != nil
+
+//@ func LogicalAND [C07 C08 C13]
+//@   requires valid(left) && valid(right)
+//@   safe [C08]
+//@   assigns [C13] left.all
+//@   ensures [bool-bool C07] BB(left,right) ==> err == nil && BV(left) == (old(BV(left)) && old(BV(right)))
+//@   ensures [type-error C07] !BB(left,right) ==> err != nil
+
+//@ func Assign [C07 C08 C13]
+//@   requires valid(left) && valid(right)
+//@   safe [C08]
+//@   assigns [C13] left.all
+//@   ensures [int-int C07] II(left,right) ==> err == nil && IV(left) == old(IV(right))
+//@   ensures [float-float C07] FF(left,right) ==> err == nil && same(FV(left), old(FV(right)))
+//@   ensures [rtime-rtime C07] RR(left,right) ==> err == nil && RV(left) == old(RV(right))
+//@   ensures [bool-bool C07] BB(left,right) ==> err == nil && BV(left) == old(BV(right))
+//@   ensures [string-string C07] is(left, *value.String) && is(right, *value.String) ==> err == nil && left.(*value.String).Value == old(right.(*value.String).Value) && left.(*value.String).IsNotSet == old(right.(*value.String).IsNotSet)
